@@ -54,6 +54,26 @@ def min_word(seq):
     return "".join(first_word(n) for n in seq)
 
 
+def fat_word(seq, reps):
+    """like min_word, but every inner repeat is taken max(lo, reps) times (multi-character segments: a loop that is
+    only ambiguous when its inner runs are longer than one character needs such a pump)"""
+    out = []
+    for op, av in seq:
+        if op in (sre_c.MAX_REPEAT, sre_c.MIN_REPEAT):
+            lo, hi, p = av
+            k = max(lo, reps)
+            if hi is not sre_c.MAXREPEAT:
+                k = min(k, hi)
+            out.append(fat_word(list(p), reps) * k)
+        elif op is sre_c.SUBPATTERN:
+            out.append(fat_word(list(av[3]), reps))
+        elif op is sre_c.BRANCH:
+            out.append(fat_word(list(av[1][0]), reps))
+        else:
+            out.append(first_word((op, av)))
+    return "".join(out)
+
+
 def node_chars(seq, out):
     for op, av in seq:
         if op is sre_c.LITERAL:
@@ -109,6 +129,10 @@ def pump_families(pattern):
         w = min_word(body)
         if w:
             pumps.add(w)
+        for reps in (2, 3):
+            fw = fat_word(body, reps)
+            if fw and len(fw) <= 12:
+                pumps.add(fw)
         chars = sorted(node_chars(body, set()))
         for c in chars:
             pumps.add(c)
